@@ -53,6 +53,8 @@ def _task(args):
                 continue
             for o in p.obls:
                 v = solve.discharge(p, o, timeout_ms)
+                if v.status != "discharged":
+                    v = retry_without_witness(ex, p, o, v, timeout_ms)
                 r = {"name": o.name, "norm": norm(o.name), "path": k, "status": v.status, "backend": v.backend,
                      "secs": round(v.secs, 3), "tags": o.tags, "kind": o.kind, "detail": v.detail,
                      "decisions": p.labels}
@@ -65,6 +67,33 @@ def _task(args):
         out["error"] = traceback.format_exc()
     out["wall_s"] = time.time() - t0
     return out
+
+
+_FINDINGS = None
+
+
+def open_findings():
+    global _FINDINGS
+    if _FINDINGS is None:
+        import json
+        fp = os.path.join(os.path.dirname(os.path.dirname(os.path.abspath(__file__))), "known_findings.json")
+        _FINDINGS = [f for f in json.load(open(fp))["findings"]] if os.path.exists(fp) else []
+    return [f for f in _FINDINGS if f.get("status") == "open"]
+
+
+def retry_without_witness(ex, p, o, v, timeout_ms):
+    """Pre and not-K => O for an open finding with witness K (DESIGN 7.2)"""
+    nm = norm(o.name)
+    for f in open_findings():
+        if not f.get("witness") or not any(re.search(pat, nm) for pat in f["obligations"]):
+            continue
+        from contracts.findings import WITNESS
+        notk = WITNESS[f["witness"]](ex.pre, ex.argvals, ex.self_ref)
+        w = solve.discharge(p, o, timeout_ms, extra=[notk])
+        if w.status == "discharged":
+            return solve.Verdict("known:" + f["id"], w.backend, v.secs + w.secs,
+                                 "fails outright (%s); discharged under the negated witness of %s" % (v.detail, f["id"]))
+    return v
 
 
 def smt_text(p, o):
